@@ -18,15 +18,16 @@ import (
 
 // RunDef is one harness exploration belonging to a check.
 type RunDef struct {
-	Fn      string
-	Setup   string
-	Params  map[string]int
-	Fuel    int64
-	Tier    string // "quick" (also run in thorough) | "thorough" (thorough only)
-	Sched   bool
-	Preempt int
-	Reach   []string // labels that must be reached (vacuity guard)
-	Note    string
+	Fn            string
+	Setup         string
+	Params        map[string]int
+	Fuel          int64
+	Tier          string // "quick" (also run in thorough) | "thorough" (thorough only)
+	Sched         bool
+	Preempt       int
+	Reach         []string // labels that must be reached (vacuity guard)
+	FuelViolation bool
+	Note          string
 }
 
 // Check describes how one property is decided.
@@ -168,7 +169,7 @@ func cmdCheck(args []string) int {
 			continue
 		}
 		t1 := time.Now()
-		spec := engine.RunSpec{Fn: rd.Fn, Setup: rd.Setup, Params: rd.Params, Fuel: rd.Fuel, Workers: *workers, Sched: rd.Sched, Preempt: rd.Preempt, Timeout: 100 * time.Minute}
+		spec := engine.RunSpec{Fn: rd.Fn, Setup: rd.Setup, Params: rd.Params, Fuel: rd.Fuel, Workers: *workers, Sched: rd.Sched, Preempt: rd.Preempt, Timeout: 100 * time.Minute, FuelViolation: rd.FuelViolation}
 		exp, err := l.Run(spec, *solver, 60000)
 		if err != nil {
 			fmt.Fprintf(os.Stderr, "run %s: %v\n", rd.Fn, err)
@@ -199,7 +200,7 @@ func cmdCheck(args []string) int {
 				vacuous = append(vacuous, rd.Fn+": label "+lab+" never reached")
 			}
 		}
-		if st.AssertsTotal == 0 && !rd.Sched {
+		if st.AssertsTotal == 0 && !rd.Sched && len(rd.Reach) == 0 {
 			vacuous = append(vacuous, rd.Fn+": no assertion executed")
 		}
 		mergeInto(&total, st)
